@@ -1019,12 +1019,29 @@ impl StoryState {
         Ok(())
     }
 
+    pub fn check_arguments(arguments: &[ValueType]) -> Result<(), StoryError> {
+        for arg in arguments {
+            if matches!(
+                arg,
+                ValueType::DivertTarget(_) | ValueType::VariablePointer(_)
+            ) {
+                return Err(StoryError::InvalidStoryState("ink arguments when calling EvaluateFunction / ChoosePathStringWithParameters must be \
+                        int, float, string, bool or InkList.".to_owned()));
+            }
+        }
+
+        Ok(())
+    }
+
     pub fn pass_arguments_to_evaluation_stack(
         &mut self,
         arguments: Option<&Vec<ValueType>>,
     ) -> Result<(), StoryError> {
         // Pass arguments onto the evaluation stack
         if let Some(arguments) = arguments {
+            // Validate before pushing anything, so that a refused call changes nothing
+            Self::check_arguments(arguments)?;
+
             for arg in arguments {
                 let value = match arg {
                     ValueType::Bool(v) => Value::new::<bool>(*v),
